@@ -245,10 +245,12 @@ R["C20"] = {"harnesses": [H("H_C20_Main", [{"maxfiles": 2}], [{"maxfiles": 3}], 
 R["C09"] = {"harnesses": [
     H("H_History", [{"len": 1}], [{"len": 1}, {"len": 2}], ["history/B-succeeds", "history/end"],
       "r1 := B(x); len arbitrary calls; r2 := B(x) with B one of Apply, ApplyIndent, CreateMergePatch, Equal, MergePatch, MergeMergePatches and each intervening call one of 13 kinds (the six again with other leaves, a failing Apply, malformed document / patch / merge patch / Equal operand / CreateMergePatch operand, ApplyWithOptions with EscapeHTML off); leaves symbolic; sync.Pool modelled as a LIFO stack so every pooled decoder/encoder/scanner state left behind by one call is handed to the next"),
+    H("H_C09_StaleDecoder", [{}], None, ["C09/stale/end", "C09/stale/object"],
+      "one inductive step: a decodeState in an arbitrary stale condition (symbolic offset, opcode, scanner byte count and top-of-stack entry; stale saved error, error context, key list, scanner step function, scanner error) goes through set-useNumber / [checkValid] / init / unmarshal of 6 texts into any, map and slice destinations and must give the outcome of a brand-new state"),
     H("H_SharedPatch", [{}], None, ["shared/end"], "one decoded Patch applied to D1, D2, D1 vs a freshly decoded Patch each time; the Patch's raw messages and a result fed back as the next document are compared byte for byte before/after")],
     "anchors": ["internal/json.UnmarshalValid", "internal/json.MarshalEscaped", "(*github.com/evanphx/json-patch/v5/internal/json.decodeState).init", "internal/json.newScanner", "internal/json.freeScanner", "(github.com/evanphx/json-patch/v5.Operation).value", "v5.newRawMessage"],
     "assumptions": ["sync.Pool = per-pool LIFO stack (the behaviour of the runtime on one goroutine with GC off; the native replay runs with GC disabled)", "concurrency is C10 (not applicable)"],
-    "outside_bound": ["histories with more than 2 intervening calls (1 in quick)", "the in-package inductive step on an arbitrary stale decodeState (DESIGN section 5 C09(d)) is not built"]}
+    "outside_bound": ["histories with more than 2 intervening calls (1 in quick)", "the inductive step covers the decoder state only (encodeState and scanner pool are covered by the histories)"]}
 
 R["C17"] = {"harnesses": [
     H("H_Codec_RoundTrip", [{"natoms": 1, "atommask": 2047, "pad": 0}, {"natoms": 1, "atommask": 1, "pad": 1}], [{"natoms": 2, "atommask": 2047, "pad": 0}, {"natoms": 1, "atommask": 2047, "pad": 1}], ["codec/object", "codec/roundtrip-end"],
